@@ -38,6 +38,47 @@ def after_create(kind):
             {'op': 'call', 'var': 'w', 'method': 'terminate', 'args': [3], 'timeout': 20, 'tag': 'terminate'}]
 
 
+F_ARM = {'file': 'remote.py', 'func': '_run_frontend', 'line_text': "logger.details('Frontend reached')"}
+# one-time work (class checks, caches) makes the first construction in a process longer than the later ones: warm up first
+WARM = [{'op': 'fake_server', 'phase': 'addr', 'cut': 5, 'ending': 'FIN'}, dict(create_op('R', host='fake'), var='warm1'),
+        {'op': 'fake_server', 'phase': 'addr', 'cut': 5, 'ending': 'FIN'}, dict(create_op('PR', host='fake'), var='warm2')]
+
+
+def parent_paths():
+    """The parent frontend thread's own line paths: (success path up to the release of the constructor, failing path)."""
+    fprobe = land.run_cases([{'script': WARM + [{'op': 'land_inproc', 'arm': dict(F_ARM, cls='RemoteWorker')}, create_op('R'),
+                                                {'op': 'land_inproc_report'}, {'op': 'call', 'var': 'w', 'method': 'terminate', 'args': [3]}]},
+                             {'script': WARM + [{'op': 'land_inproc', 'arm': dict(F_ARM, cls='RemoteWorker')},
+                                                {'op': 'fake_server', 'phase': 'addr', 'cut': 5, 'ending': 'FIN'}, create_op('R', host='fake'),
+                                                {'op': 'land_inproc_report'}]}], case_timeout=60, nproc=2)
+    ok_sites = fprobe[0]['steps'][6]['ret']['sites'] if len(fprobe[0].get('steps', [])) > 6 else []
+    fail_sites = fprobe[1]['steps'][7]['ret']['sites'] if len(fprobe[1].get('steps', [])) > 7 else []
+    n_ok = 0
+    ln = line_of('remote.py', "logger.debug('Received info package from the backend, signalling the main thread that everything is fine')")
+    for i, st in enumerate(ok_sites):
+        if st[0] == 'remote.py' and st[1] == ln:
+            n_ok = i + 1
+            break
+    else:
+        n_ok = len(ok_sites)
+    return ok_sites, n_ok, fail_sites
+
+
+def thin_points(sites, n, quick):
+    ks = [i + 1 for i in range(n) if sites[i][2] == '_run_frontend' or i == 0 or i == n - 1 or
+          (sites[i - 1][2] == '_run_frontend') or (i + 1 < n and sites[i + 1][2] == '_run_frontend')]
+    return ks if quick else list(range(1, n + 1))
+
+
+def server_stopped_while_parent_held(kind, k, how='sigterm'):
+    arm = dict(F_ARM, cls=CLS[kind])
+    return WARM + [{'op': 'land_inproc', 'arm': arm, 'events': [{'k': k, 'action': 'pause', 'cap': 20}]},
+                   {'op': 'respawn_server'}, dict(create_op(kind), op='create_async', timeout=25),
+                   {'op': 'wait_reached', 'timeout': 8, 'tag': 'reached'}, {'op': 'server_stop', 'how': how, 'tag': 'stop'},
+                   {'op': 'land_release'}, {'op': 'join_create', 'var': 'w', 'timeout': 15, 'tag': 'ctor', 'stop_on_hang': False},
+                   {'op': 'land_inproc_report'}, {'op': 'respawn_server'}]
+
+
 def run(ctx):
     ctx.rule = ('fault = (kind, what, where): scripted-peer truncation (message, byte offset, FIN|RST), refused control port, unknown '
                 'context, child/backend fault (kill|raise) at line event k before the identity report, server kill at line event k of '
@@ -111,35 +152,18 @@ def run(ctx):
             [{'op': 'land_off'}, {'op': 'respawn_server'}],
             part='server-killed', kind='R', what='server-killed-during-handshake', where=k, ending='-', expect='any')
     # --- F/G: the parent itself is held at every line of its side of the handshake -------------------------------------------
-    F_ARM = {'file': 'remote.py', 'func': '_run_frontend', 'line_text': "logger.details('Frontend reached')"}
-    # one-time work (class checks, caches) makes the first construction in a process longer than the later ones: warm up first
-    WARM = [{'op': 'fake_server', 'phase': 'addr', 'cut': 5, 'ending': 'FIN'}, dict(create_op('R', host='fake'), var='warm1'),
-            {'op': 'fake_server', 'phase': 'addr', 'cut': 5, 'ending': 'FIN'}, dict(create_op('PR', host='fake'), var='warm2')]
-    fprobe = land.run_cases([{'script': WARM + [{'op': 'land_inproc', 'arm': dict(F_ARM, cls='RemoteWorker')}, create_op('R'),
-                                         {'op': 'land_inproc_report'}, {'op': 'call', 'var': 'w', 'method': 'terminate', 'args': [3]}]},
-                             {'script': WARM + [{'op': 'land_inproc', 'arm': dict(F_ARM, cls='RemoteWorker')},
-                                         {'op': 'fake_server', 'phase': 'addr', 'cut': 5, 'ending': 'FIN'}, create_op('R', host='fake'),
-                                         {'op': 'land_inproc_report'}]}], case_timeout=60, nproc=2)
-    ok_sites = fprobe[0]['steps'][6]['ret']['sites'] if len(fprobe[0].get('steps', [])) > 6 else []
-    fail_sites = fprobe[1]['steps'][7]['ret']['sites'] if len(fprobe[1].get('steps', [])) > 7 else []
+    ok_sites, n_ok, fail_sites = parent_paths()
     if not ok_sites or not fail_sites:
         ctx.selftest_fail('no preemption points recorded in the parent frontend thread')
-    # up to the point where the constructor is released on the success path
-    n_ok = upto(ok_sites, 'remote.py', line_of('remote.py', "logger.debug('Received info package from the backend, signalling the main thread that everything is fine')"))
     ctx.extra['fault_points'].update(parent_handshake=n_ok, parent_failure_path=len(fail_sites))
+
     def thin(sites, n):
-        ks = [i + 1 for i in range(n) if sites[i][2] == '_run_frontend' or i == 0 or i == n - 1 or
-              (sites[i - 1][2] == '_run_frontend') or (i + 1 < n and sites[i + 1][2] == '_run_frontend')]
-        return ks if ctx.quick else list(range(1, n + 1))
+        return thin_points(sites, n, ctx.quick)
     for kind in ('R', 'PR'):
         arm = dict(F_ARM, cls=CLS[kind])
         for k in thin(ok_sites, n_ok):
             # F: the server is stopped (SIGTERM) while the parent is held at line event k of its handshake
-            add(WARM + [{'op': 'land_inproc', 'arm': arm, 'events': [{'k': k, 'action': 'pause', 'cap': 20}]},
-                 {'op': 'respawn_server'}, dict(create_op(kind), op='create_async', timeout=25),
-                 {'op': 'wait_reached', 'timeout': 8, 'tag': 'reached'}, {'op': 'server_stop', 'how': 'sigterm', 'tag': 'stop'},
-                 {'op': 'land_release'}, {'op': 'join_create', 'var': 'w', 'timeout': 15, 'tag': 'ctor', 'stop_on_hang': False},
-                 {'op': 'land_inproc_report'}, {'op': 'respawn_server'}],
+            add(server_stopped_while_parent_held(kind, k),
                 part='server-stopped-while-parent-held', kind=kind, what='server-sigterm-while-parent-at-line', where=k, ending='-', expect='any')
         for k in thin(fail_sites, len(fail_sites)):
             # G: a failing start-up with the parent thread preempted at line event k (the constructor must still raise)
